@@ -903,4 +903,36 @@ theorem crun_hist (acts : List Act) : ∀ s : Ctl, Ext s.accepted (crun s acts).
       have h1 := cstep_hist s s' a h
       have h2 := ih s'
       exact ⟨h1.1.trans h2.1, h1.2.trans h2.2⟩
+/-! ## Part A: closed is final -/
+
+theorem step_closed (s : St) (op : Op) (hc : s.closed = true) (hg : s.guardClosed = true) :
+    (step s op).closed = true ∧ (step s op).offered = s.offered ∧ (step s op).accepted = s.accepted ∧
+    (step s op).closeEvents = s.closeEvents := by
+  show (step0 s op).closed = true ∧ (step0 s op).offered = s.offered ∧ (step0 s op).accepted = s.accepted ∧
+    (step0 s op).closeEvents = s.closeEvents
+  cases op with
+  | shutdown => exact ⟨hc, rfl, rfl, rfl⟩
+  | close => simp [step0, St.fail, hc]
+  | send d => exact ⟨hc, rfl, rfl, rfl⟩
+  | pump o => simp [step0, doSend, hc]
+  | pumpRW rx o => simp [step0, hc]
+  | sendFast d o => simp [step0, hc]
+
+theorem foldl_closed (b : List Op) : ∀ s : St, s.closed = true → s.guardClosed = true →
+    (b.foldl step s).closed = true ∧ (b.foldl step s).offered = s.offered ∧ (b.foldl step s).accepted = s.accepted ∧
+    (b.foldl step s).closeEvents = s.closeEvents := by
+  induction b with
+  | nil => intro s hc _; exact ⟨hc, rfl, rfl, rfl⟩
+  | cons op b ih =>
+    intro s hc hg
+    obtain ⟨c1, o1, a1, e1⟩ := step_closed s op hc hg
+    obtain ⟨c2, o2, a2, e2⟩ := ih (step s op) c1 (by rw [step_guard]; exact hg)
+    exact ⟨c2, by rw [List.foldl_cons, o2, o1], by rw [List.foldl_cons, a2, a1], by rw [List.foldl_cons, e2, e1]⟩
+
+theorem run_guard (ops : List Op) : (run ops).guardClosed = true := by
+  have : ∀ s : St, s.guardClosed = true → (ops.foldl step s).guardClosed = true := by
+    induction ops with
+    | nil => intro s h; exact h
+    | cons op ops ih => intro s h; exact ih _ (by rw [step_guard]; exact h)
+  exact this {} rfl
 end Pox.SendPath
